@@ -122,6 +122,14 @@ func genC02Case(t *rapid.T) C02Case {
 		case 2:
 			l.NotOnOrAfter = spsim.Rel(-3600, 0, "")
 		}
+		// every place inside the message that can name a party: the NameID's qualifiers may name any registered SP
+		if rapid.IntRange(0, 2).Draw(t, "lqualifier") == 0 {
+			other := spec.SPs[rapid.IntRange(0, len(spec.SPs)-1).Draw(t, "lqualsp")].EntityID
+			l.SPNameQualifier = other
+			if rapid.Bool().Draw(t, "lnamequal") {
+				l.NameQualifier = other
+			}
+		}
 		if rapid.Bool().Draw(t, "ldest") {
 			l.Destination = att("ldestv")
 			c.Channels = append(c.Channels, "Destination")
